@@ -148,7 +148,7 @@ def digest_obj(o, _depth=0) -> int:
 
 # --------------------------------------------------------------------------- tolerances
 
-K_REF = {"f32": 256.0, "f64": 256.0, "bf16": 32.0}
+K_REF = {"f32": 256.0, "f64": 256.0, "bf16": 64.0}
 UNIT = {"f32": 2.0 ** -24, "f64": 2.0 ** -53, "bf16": 2.0 ** -9, "f16": 2.0 ** -11}
 
 
